@@ -351,7 +351,14 @@ func markerWorker(r *vlib.Run, gm, gid, ops int, shared []*sharedMsg) {
 			e := cache.NewCacheEntryWithKey(m, time.Minute, 0, 0)
 			stored, _ := cache.VerifC15EntryWire(e)
 			r.Count("conc_packs", 1)
-			if !want.ok() || e == nil || !bytes.Equal(stored, want.b) {
+			if !want.ok() {
+				// the storable view drops the OPT: an extended rcode is then unpackable
+				if e != nil {
+					r.Violation("concurrent/cache-entry-for-unpackable", "a cache entry was stored for a view the library cannot pack", cc)
+				} else {
+					r.Count("conc_cache_declined_unpackable", 1)
+				}
+			} else if e == nil || !bytes.Equal(stored, want.b) {
 				report(cc, "cache", "the bytes stored for a cache entry under concurrency differ from the library encoding", want.b, stored)
 			} else {
 				r.Count("conc_cache_equal", 1)
